@@ -56,7 +56,7 @@ Section Proofs.
   Qed.
 
   (* SortMatchers on a selector *)
-  Lemma sort_vequiv v : vequiv v (mkVS (sort_matchers (vms v)) (vorig v) (voff v) (vat v) (vflt v)).
+  Lemma sort_vequiv v : vequiv v (mkVS (sort_matchers (vms v)) (vorig v) (voff v) (vat v) (vflt v) (vsyn v)).
   Proof.
     repeat split; simpl. intros l. unfold vsel_matches. simpl.
     rewrite (sel_matches_perm (vms v) (sort_matchers (vms v)) l (sort_matchers_perm _)). reflexivity.
